@@ -148,7 +148,15 @@ impl ExecConverter {
             writeln!(script)?;
             let flag_converter = convert::flags::FlagConverter::new();
             // 4. Then construct our command line. (be sure to use exec)
-            write!(script, "exec '{}' ", convert::shell_escape_single_quoted(command.unwrap()))?;
+            // A command that starts with a dash would be read as an option
+            // of the exec builtin itself.
+            let end_of_options = if command.unwrap().starts_with('-') { "-- " } else { "" };
+            write!(
+                script,
+                "exec {}'{}' ",
+                end_of_options,
+                convert::shell_escape_single_quoted(command.unwrap())
+            )?;
             if let Some(arg_list) = args {
                 for v in arg_list.iter() {
                     // We only allow tuples or strings in our args list.
